@@ -32,7 +32,9 @@ def main():
         name = sys.argv[sys.argv.index('--name') + 1]
     confirm = '--no-confirm' not in sys.argv
     wt = '/tmp/seed/' + pid
-    out = '/tmp/seed/%s-out' % pid
+    out = "/tmp/seed/%s-out" % pid
+    if "--out" in sys.argv:
+        out = sys.argv[sys.argv.index("--out") + 1]
     ran = []
     res = {}
     if confirm:
